@@ -78,8 +78,8 @@ func vp_C08_levels() {
 	vpAssert("redact", vpLevelOK(old.Redact, new.Redact, senderLevel))
 	vpAssert("events_default", vpLevelOK(old.EventsDefault, new.EventsDefault, senderLevel))
 	vpAssert("state_default", vpLevelOK(old.StateDefault, new.StateDefault, senderLevel))
-	// KF-C08-1: users_default is not among the levels the library compares
-	vpAssertKF("users_default", vpLevelOK(old.UsersDefault, new.UsersDefault, senderLevel), "KF-C08-1", old.UsersDefault != new.UsersDefault)
+	// (fixed: KF-C08-1 - users_default was not among the levels the library compares)
+	vpAssert("users_default", vpLevelOK(old.UsersDefault, new.UsersDefault, senderLevel))
 	for k := range old.Events {
 		vpAssert("events-old-key", vpLevelOK(old.EventLevel(k, false), new.EventLevel(k, false), senderLevel))
 	}
@@ -100,10 +100,9 @@ func vp_C08_levels() {
 		if o == n {
 			return
 		}
-		kf := old.UsersDefault != new.UsersDefault
-		vpAssertKF("user-new-level", n <= senderLevel, "KF-C08-1", kf)
+		vpAssert("user-new-level", n <= senderLevel)
 		if u != sender {
-			vpAssertKF("user-old-level", o < senderLevel, "KF-C08-1", kf)
+			vpAssert("user-old-level", o < senderLevel)
 		}
 	}
 	for u := range old.Users {
